@@ -230,6 +230,22 @@ CLAIMS['C18'].update(
 CLAIMS['C19'].update(
     technique=CLAIMS['C19']['technique'] + '; file-local helpers of the marshalling wrappers are seen through (parameter binding)')
 
+# ---- session 4, second half
+CLAIMS['C02'].update(
+    text=CLAIMS['C02']['text'].replace('Not decided: inversion / exponentiation / square-root / Legendre as values (they compose the decided primitives)', 'Inversion (binary extended Euclid in Montgomery form) is decided as partial correctness: with K = R^2/a the invariant b == K u, c == K v (mod p), b, c < p, u, v <= p holds initially and is preserved by each halving step and by the subtraction step executed from an arbitrary state, and the result is b when u == 1 and c otherwise (termination not decided). Not decided: exponentiation / square-root / Legendre as values (they compose the decided primitives)'))
+CLAIMS['C06'].update(
+    text=CLAIMS['C06']['text'].replace('Not decided: the w-NAF recoding as a value (digits sum to the scalar),', 'The w-NAF recoding is decided as an inductive step: one iteration of from_bigint from an arbitrary state gives c_old == u + 2 c_new exactly (lost top bit of the add-back re-inserted), |u| <= 2^w - 1, digit stored at wnaf[i], i advanced; with c == scalar before the loop and c == 0 at the exit the digits recombine to the scalar. Not decided:'))
+CLAIMS['C11'].update(
+    technique=CLAIMS['C11']['technique'] + '; interprocedural must-pass rule for the hidden-attribute flag (R-HIDDEN/flag)')
+CLAIMS['C12'].update(
+    technique=CLAIMS['C12']['technique'] + '; interprocedural must-pass rule for the hidden-attribute flag (R-HIDDEN/flag)',
+    text=CLAIMS['C12']['text'] + ' In the four key-derivation routines and in every scheme routine they hand the attribute list to, the identity of a list element is used only after the omitFromKeys flag of the same element has been tested on every path.')
+CLAIMS['C17'].update(
+    technique=CLAIMS['C17']['technique'] + '; guard-refined interval analysis (a variable the code compares against a constant ranges over its whole type outside the guard)',
+    text=CLAIMS['C17']['text'] + ' A subscript whose index is guarded by a comparison of a variable with a constant must be in range on BOTH arms for every value of that variable\'s type (the comparison states that the other values occur).')
+CLAIMS['C18'].update(
+    text=CLAIMS['C18']['text'] + ' Reference locals bound through a conditional on pointer equality (`(this == &b) ? b : a`) are resolved under each aliasing pattern; a reference the analysis cannot resolve stops the check (no silent private-object assumption).')
+
 NA = {
 }
 
